@@ -175,12 +175,16 @@ impl SlabRouter {
         match Self::classify_key(key) {
             KeyClass::Embedding => {
                 let entity_id = self.index.get_or_create(key);
-                // Extract vector from TensorValue if present
-                if let Some(TensorValue::Vector(vec)) = value.get("_embedding") {
-                    // Try to store in embedding slab; if dimension mismatch, just use metadata
-                    if self.embeddings.set(entity_id, vec).is_err() {
-                        // Dimension mismatch - store in metadata only (this is fine)
-                    }
+                // Extract vector from TensorValue if present; on dimension mismatch the
+                // vector lives in metadata only (this is fine)
+                let in_slab = match value.get("_embedding") {
+                    Some(TensorValue::Vector(vec)) => self.embeddings.set(entity_id, vec).is_ok(),
+                    _ => false,
+                };
+                if !in_slab {
+                    // The new value has no slab vector: drop the one a previous put left
+                    // there, or `get` would attach the old vector to the new value.
+                    self.embeddings.delete(entity_id);
                 }
                 // Also store metadata (always includes the embedding for retrieval)
                 self.metadata.set(key, value);
